@@ -2,6 +2,8 @@ package streamwriter
 
 import (
 	"bytes"
+	"errors"
+	"io"
 )
 
 type size interface {
@@ -35,7 +37,7 @@ func (w *writer[SizeT, Req, Resp]) Write(p []byte) (int, error) {
 	buf := make([]byte, w.chunkSize)
 	for w.buf.Len() >= int(w.chunkSize) {
 		_, _ = w.buf.Read(buf)
-		err := w.stream.Send(w.req(buf))
+		err := w.send(buf)
 		if err != nil {
 			return 0, err
 		}
@@ -47,7 +49,7 @@ func (w *writer[SizeT, Req, Resp]) Write(p []byte) (int, error) {
 func (w *writer[SizeT, Req, Resp]) Close() error {
 	data := w.buf.Bytes()
 	if len(data) > 0 {
-		err := w.stream.Send(w.req(w.buf.Bytes()))
+		err := w.send(data)
 		if err != nil {
 			return err
 		}
@@ -59,4 +61,18 @@ func (w *writer[SizeT, Req, Resp]) Close() error {
 	}
 
 	return nil
+}
+
+// send sends one chunk. When the server has already ended the call, Send reports only
+// io.EOF: the status the server ended it with is what CloseAndRecv returns.
+func (w *writer[SizeT, Req, Resp]) send(p []byte) error {
+	err := w.stream.Send(w.req(p))
+	if errors.Is(err, io.EOF) {
+		_, rErr := w.stream.CloseAndRecv()
+		if rErr != nil {
+			return rErr
+		}
+	}
+
+	return err
 }
